@@ -10,6 +10,18 @@ COMMON_NOTE = ("Trusted base: pyvc engine (AST transform T1-T3 of the real sourc
                "lift to C), A3 (integer powers), A4 (path forking via z3), A5 (numpy shim contracts, listed per run in evidence.trusted_base). ")
 
 CLAIMED = {
+    "C08": dict(
+        category="proof",
+        text=("NS: the expanded, truncated and ordered-truncated kernels are executed on couplings a = lambda*alpha in a truncated series ring and "
+              "the coefficients lambda^0..lambda^(n-1) of their difference to the code's exact kernel are proved zero (orders 2-4, arbitrary beta "
+              "vector; order 4 through the roots contract), plus dispatcher wiring for nf 3-6. Singlet: r_vec satisfies R(a)P(a)=gamma(a)/beta0 for "
+              "any ev_op_max_order (invariant cut), u_vec's update satisfies the U-matrix recurrence for arbitrary kk (inlined projector algebra), "
+              "sum_u is the polynomial sum, eko_truncated equals the truncated product U(a1)E0 U(a0)^-1 on generic 3x3 matrices, every step of "
+              "eko_perturbative multiplies by U(ah)E0(ah,al)U(al)^-1 for any iteration count. With the U-matrix lemma this is the statement."),
+        note=COMMON_NOTE + "Trusted lemma: U-matrix ansatz (EKL/PEGASUS). Inner accumulation loop of u_vec bounded to kk in {1,2,3,5}. Decompose methods only in the commuting limit (C09).",
+        technique="contract-based deductive verification: execution over truncated series + modular contracts + invariant cuts + exact normal form",
+        design_ref="DESIGN.md section 2, C08",
+    ),
     "C09": dict(
         category="proof",
         text=("Singlet dispatcher executed on gamma_k = diag(p_k, q_k) with symbolic entries: for LO, decompose-exact/expanded, truncated and "
